@@ -5,7 +5,9 @@ Diff): sliding_window_view alone and under every reduction (sum, min, max, mean,
 cumsum / cumprod (sequential and blelloch) and diff along every axis, over 1-D sources of 1..8 elements and two 2-D sources
 (int, float, bool).  Every behaviour is replayed under EVERY chunk grid of its source (up to 128 grids: windows larger than a
 block, blocks smaller than the window, many-block scans) and the computed value, shape and dtype are compared with the
-denotation."""
+denotation.  map_overlap is covered by the Overlap action: a local stencil of radius 1-2 (out[i] = ext(i-r) + A[i] + ext(i+r),
+NdArray.Stencil) under every boundary kind (reflect, periodic, nearest, constant, none) along every axis, under every chunk
+grid (blocks smaller than the depth included)."""
 from __future__ import annotations
 
 from .. import progcheck, replay, tlc
@@ -13,15 +15,15 @@ from .. import progcheck, replay, tlc
 
 def plans(tier):
     if tier == "quick":
-        return [("d1-win", 128, 3), ("d1-scan", 128, 2)]
-    return [("d1-win", 128, 1), ("d1-scan", 128, 1)]
+        return [("d1-win", 128, 3), ("d1-scan", 128, 2), ("d1-overlap", 32, 2)]
+    return [("d1-win", 128, 1), ("d1-scan", 128, 1), ("d1-overlap", 128, 1)]
 
 
 def run(chk):
     rd = tlc.new_rundir("C19")
     try:
         picked = []
-        for name, maxvar, stride in plans(chk.tier):
+        for name, maxvar, stride in progcheck.dev_filter(plans(chk.tier)):
             kw = dict(progcheck.CORPORA[name])
             keep = kw.pop("keep", None)
             kw.pop("observe_all", None)
@@ -54,9 +56,9 @@ def run(chk):
         chk.cov["exhaustive"] = True
         chk.cov["rule"] = ("every behaviour [source (n,) n in 1..8, (3,5), (4,3) x {int, float, bool}] ; [sliding_window_view(w) for every w | "
                            "window reduction x 8 reducers x every w | cumsum/cumprod x {sequential, blelloch} | diff] x every chunk grid of the "
-                           "source (128 for n = 8)")
-        chk.assumptions += ["map_overlap / overlap with boundary kinds, gradient and moving-window helpers have no denotation in NdArray.tla yet "
-                            "and are not decided by this check (DESIGN 9)",
+                           "source (128 for n = 8); map_overlap(stencil radius 1-2) x 5 boundary kinds x axis x every chunk grid")
+        chk.assumptions += ["map_overlap is decided for one-axis depths with a local additive stencil; gradient, the moving-window helpers and "
+                            "multi-axis depths / trim=False have no denotation in NdArray.tla and are not decided by this check (DESIGN 9)",
                             "float results compared with rtol 1e-9"]
     finally:
         tlc.cleanup(rd)
